@@ -27,6 +27,7 @@ where
         let mut c = ChangeCursor::new(bytes);
         let change =
             ReadWriteBaseVec::<I, T>::parse_change_data(&mut c, Self::SIZE_OF_T, |b| S::read(b))?;
+        c.expect_end()?;
 
         // A damaged length field must not produce a length the data does not back.
         if change.truncated_start > self.stored_len() {
